@@ -529,3 +529,282 @@ Section LoadProofs.
     apply then_inside; [exact I3|]. apply up_obs_inside.
   Qed.
 End LoadProofs.
+
+(* ------------------------------------------------------------------------- no partial match of the whitelist *)
+(* An accepted element type is made of lower-case letters, digits and dots only: a field containing any other
+   character (a quote, a bracket, a space, a parenthesis, an upper-case letter, a byte of a multi-byte UTF-8
+   character: every unicode look-alike) is rejected, wherever an accepted name may occur inside it. *)
+Definition dtype_char (c : ascii) : bool :=
+  let n := nat_of_ascii c in
+  (Nat.leb 97 n && Nat.leb n 122) || (Nat.leb 48 n && Nat.leb n 57) || Nat.eqb n 46.
+Definition is_digit (c : ascii) : bool :=
+  let n := nat_of_ascii c in Nat.leb 48 n && Nat.leb n 57.
+Fixpoint all_chars (P : ascii -> bool) (s : string) : bool :=
+  match s with EmptyString => true | String c s' => P c && all_chars P s' end.
+
+Lemma accepted_names_chars : forallb (all_chars dtype_char) accepted_names = true.
+Proof. vm_compute. reflexivity. Qed.
+
+Lemma parse_dtype_charset s d : parse_dtype s = Some d -> all_chars dtype_char s = true.
+Proof.
+  intros E. assert (I : In s accepted_names) by (apply parse_dtype_accepts; exists d; exact E).
+  pose proof accepted_names_chars as H. rewrite forallb_forall in H. apply H; exact I.
+Qed.
+
+Lemma all_chars_has P s c : all_chars P s = true -> has_char c s = true -> P c = true.
+Proof.
+  induction s as [|a s IH]; cbn; [discriminate|].
+  rewrite andb_true_iff, orb_true_iff. intros [A B] [E|H].
+  - apply Ascii.eqb_eq in E; subst; exact A.
+  - apply IH; assumption.
+Qed.
+
+Lemma parse_dtype_foreign_char s c : has_char c s = true -> dtype_char c = false -> parse_dtype s = None.
+Proof.
+  intros H N. destruct (parse_dtype s) as [d|] eqn:E; [|reflexivity].
+  apply parse_dtype_charset in E. rewrite (all_chars_has _ _ _ E H) in N. discriminate N.
+Qed.
+
+Lemma has_char_app c s t : has_char c (s ++ t)%string = has_char c s || has_char c t.
+Proof. induction s as [|a s IH]; cbn; [reflexivity|]. rewrite IH, orb_assoc. reflexivity. Qed.
+
+(* the text that str(type) / repr(dtype) produce around a name, with anything after it *)
+Lemma parse_dtype_class_repr n tail : parse_dtype ("<class '" ++ n ++ "'>" ++ tail)%string = None.
+Proof. apply parse_dtype_foreign_char with (c := "<"%char); reflexivity. Qed.
+Lemma parse_dtype_dtype_repr n tail : parse_dtype ("dtype('" ++ n ++ "')" ++ tail)%string = None.
+Proof.
+  apply parse_dtype_foreign_char with (c := "("%char); [|reflexivity].
+  change ("dtype('" ++ n ++ "')" ++ tail)%string with ("dtype" ++ String "("%char ("'" ++ n ++ "')" ++ tail))%string.
+  rewrite has_char_app. cbn. reflexivity.
+Qed.
+
+(* text AFTER an accepted name: the result is accepted only when the text is the (at most two) digits that make
+   another whitelisted name out of it (int -> int8, float -> float16, ...) *)
+Lemma drop_append s t : drop (String.length s) (s ++ t)%string = t.
+Proof. induction s as [|a s IH]; cbn; [reflexivity|exact IH]. Qed.
+
+Definition ext_ok (s u : string) : bool :=
+  if prefixb s u
+  then all_chars is_digit (drop (String.length s) u) && Nat.leb (String.length (drop (String.length s) u)) 2
+  else true.
+Lemma accepted_ext_table : forallb (fun s => forallb (ext_ok s) accepted_names) accepted_names = true.
+Proof. vm_compute. reflexivity. Qed.
+
+Lemma parse_dtype_extension s t d d' :
+  parse_dtype s = Some d -> parse_dtype (s ++ t)%string = Some d' ->
+  all_chars is_digit t = true /\ String.length t <= 2.
+Proof.
+  intros E E'.
+  assert (I : In s accepted_names) by (apply parse_dtype_accepts; exists d; exact E).
+  assert (I' : In (s ++ t)%string accepted_names) by (apply parse_dtype_accepts; exists d'; exact E').
+  pose proof accepted_ext_table as H. rewrite forallb_forall in H. specialize (H _ I).
+  rewrite forallb_forall in H. specialize (H _ I'). unfold ext_ok in H.
+  assert (P : prefixb s (s ++ t)%string = true) by (apply prefixb_spec; exists t; reflexivity).
+  rewrite P, drop_append, andb_true_iff in H. destruct H as [A B]. split; [exact A|].
+  apply Nat.leb_le; exact B.
+Qed.
+
+Lemma parse_dtype_tail_rejected s t d c :
+  parse_dtype s = Some d -> has_char c t = true -> is_digit c = false -> parse_dtype (s ++ t)%string = None.
+Proof.
+  intros E H N. destruct (parse_dtype (s ++ t)%string) as [d'|] eqn:E'; [|reflexivity].
+  destruct (parse_dtype_extension _ _ _ _ E E') as [A _].
+  rewrite (all_chars_has _ _ _ A H) in N. discriminate N.
+Qed.
+
+(* text BEFORE an accepted name: only the prefixes np. / numpy. and the letter u (int8 -> uint8) *)
+Fixpoint take (n : nat) (s : string) : string :=
+  match n, s with
+  | S n', String a s' => String a (take n' s')
+  | _, _ => EmptyString
+  end.
+Lemma take_append h s : take (String.length h) (h ++ s)%string = h.
+Proof. induction h as [|a h IH]; cbn; [destruct s; reflexivity|]. rewrite IH. reflexivity. Qed.
+Lemma length_app h s : String.length (h ++ s)%string = String.length h + String.length s.
+Proof. induction h as [|a h IH]; cbn; [reflexivity|]. rewrite IH. reflexivity. Qed.
+
+Definition accepted_heads : list string := [""; "u"; "np."; "numpy."; "np.u"; "numpy.u"]%string.
+Definition head_ok (s u : string) : bool :=
+  let h := take (String.length u - String.length s) u in
+  if eqb (h ++ s)%string u then memb h accepted_heads else true.
+Lemma accepted_head_table : forallb (fun s => forallb (head_ok s) accepted_names) accepted_names = true.
+Proof. vm_compute. reflexivity. Qed.
+
+Lemma parse_dtype_head h s d d' :
+  parse_dtype s = Some d -> parse_dtype (h ++ s)%string = Some d' -> In h accepted_heads.
+Proof.
+  intros E E'.
+  assert (I : In s accepted_names) by (apply parse_dtype_accepts; exists d; exact E).
+  assert (I' : In (h ++ s)%string accepted_names) by (apply parse_dtype_accepts; exists d'; exact E').
+  pose proof accepted_head_table as H. rewrite forallb_forall in H. specialize (H _ I).
+  rewrite forallb_forall in H. specialize (H _ I'). unfold head_ok in H.
+  rewrite length_app in H. replace (String.length h + String.length s - String.length s) with (String.length h) in H
+    by (rewrite Nat.add_sub; reflexivity).
+  rewrite take_append, eqb_refl in H. apply memb_In; exact H.
+Qed.
+
+Lemma and4_true (a b c d : bool) : a && b && c && d = true -> a = true /\ b = true /\ c = true /\ d = true.
+Proof. destruct a, b, c, d; cbn; intros H; try discriminate H; auto. Qed.
+
+(* ------------------------------------------------------------------ the upgrade never swallows an element type *)
+Section UpgradeDtype.
+  Variable L : leaves.
+
+  Lemma then_none a b : fst (then_ a b) = None -> fst a = None /\ fst b = None.
+  Proof. destruct a as [[e|] es]; cbn; [discriminate|]. auto. Qed.
+
+  (* one 1.0 feature folder that is converted without error had a well-formed first row with a whitelisted type *)
+  Lemma up_feature_none_dtype checked t k needs kp given names f :
+    find_dir (t_dirs t) (d_feat k) = Some names -> find_file (t_files t) (p_old_cfg k) = Some f ->
+    fst (snd (up_feature L checked t k needs kp given)) = None ->
+    exists r rest d, f_rows f = r :: rest /\ List.length r = 3 /\ is_int L (nth_s 2 r) = true /\
+                     parse_dtype (nth_s 1 r) = Some d.
+  Proof.
+    intros D F. unfold up_feature. rewrite D, F.
+    destruct (negb (old_version_ok (f_ver f))); [discriminate|].
+    destruct (needs && match kp with None => true | Some _ => false end); [discriminate|].
+    destruct (cfg_check L "keypoints" (p_old_cfg k) (f_rows f)) as [er|] eqn:CC; [discriminate|].
+    intros _. unfold cfg_check in CC. destruct (f_rows f) as [|r rest]; [discriminate|].
+    destruct (Nat.eqb (List.length r) (ncols "keypoints")) eqn:LN; cbn [andb] in CC; [|discriminate].
+    destruct (is_int L (nth_s 2 r)) eqn:II; [|discriminate].
+    destruct (parse_dtype (nth_s 1 r)) as [d|] eqn:PD; [|discriminate].
+    exists r, rest, d. repeat split; auto. apply Nat.eqb_eq in LN. exact LN.
+  Qed.
+
+  Lemma upgrade_value_dtypes_ok checked t kt dt gt :
+    fst (upgrade_gen L checked t kt dt gt) = Value ->
+    forall k names f, In k ["keypoints"; "descriptors"; "global_features"]%string ->
+      find_dir (t_dirs t) (d_feat k) = Some names -> find_file (t_files t) (p_old_cfg k) = Some f ->
+      exists r rest d, f_rows f = r :: rest /\ List.length r = 3 /\ is_int L (nth_s 2 r) = true /\
+                       parse_dtype (nth_s 1 r) = Some d.
+  Proof.
+    unfold upgrade_gen. cbn [fst].
+    destruct (up_headers t csv_1_0) as [[e0|] es0]; [discriminate|].
+    destruct (up_feature L checked t "keypoints" false kt kt) as [kp1 r1] eqn:U1.
+    set (kp := match kp1 with Some ty => Some ty | None => kt end).
+    destruct (up_feature L checked t "descriptors" true kp dt) as [x2 r2] eqn:U2.
+    destruct (up_feature L checked t "global_features" false kp gt) as [x3 r3] eqn:U3.
+    intros V.
+    assert (N : fst (then_ (None, es0) (then_ r1 (then_ r2 (then_ (up_matches t kp) (then_ r3 (up_obs L t kp)))))) = None).
+    { destruct (fst (then_ (None, es0) (then_ r1 (then_ r2 (then_ (up_matches t kp) (then_ r3 (up_obs L t kp))))))); [discriminate V|reflexivity]. }
+    apply then_none in N. destruct N as [_ N].
+    apply then_none in N. destruct N as [N1 N].
+    apply then_none in N. destruct N as [N2 N].
+    apply then_none in N. destruct N as [_ N].
+    apply then_none in N. destruct N as [N3 _].
+    intros k names f K D F. cbn in K. destruct K as [<-|[<-|[<-|[]]]].
+    - eapply (up_feature_none_dtype checked t "keypoints" false kt kt); eauto. rewrite U1. exact N1.
+    - eapply (up_feature_none_dtype checked t "descriptors" true kp dt); eauto. rewrite U2. exact N2.
+    - eapply (up_feature_none_dtype checked t "global_features" false kp gt); eauto. rewrite U3. exact N3.
+  Qed.
+
+  (* ... and the error names the file and the field (same cfg_check as the load path, 3 columns) *)
+  Lemma up_feature_bad_dtype checked t k needs kp given names f r rest :
+    find_dir (t_dirs t) (d_feat k) = Some names -> find_file (t_files t) (p_old_cfg k) = Some f ->
+    old_version_ok (f_ver f) = true -> (needs = true -> kp <> None) ->
+    f_rows f = r :: rest -> List.length r = 3 -> is_int L (nth_s 2 r) = true -> parse_dtype (nth_s 1 r) = None ->
+    fst (snd (up_feature L checked t k needs kp given)) = Some (EBadDtype (p_old_cfg k) (nth_s 1 r)) /\
+    forall e, In e (snd (snd (up_feature L checked t k needs kp given))) ->
+      e = Read (p_old_cfg k) \/ (checked = false /\ e = Eval).
+  Proof.
+    intros D F OV NK R LN II PD. unfold up_feature. rewrite D, F, OV. cbn [negb].
+    assert (G : needs && match kp with None => true | Some _ => false end = false).
+    { destruct needs; [|reflexivity]. destruct kp; [reflexivity|]. exfalso; apply NK; reflexivity. }
+    rewrite G, R. unfold cfg_check. rewrite LN. cbn [ncols]. 
+    change (Nat.eqb 3 (ncols "keypoints")) with true. rewrite II, PD. cbn [andb fst snd].
+    split; [reflexivity|]. intros e [<-|I]; [left; reflexivity|].
+    destruct checked; cbn in I; [contradiction | destruct I as [<-|[]]; right; split; reflexivity].
+  Qed.
+End UpgradeDtype.
+
+(* -------------------------------------------------- the upgrade has file accesses only: no hypothesis at all *)
+Section UpgradeAccess.
+  Variable L : leaves.
+  Definition all_access (es : list effect) : Prop := forall e, In e es -> is_access e = true.
+
+  Lemma all_access_app a b : all_access (a ++ b) <-> all_access a /\ all_access b.
+  Proof.
+    unfold all_access; split.
+    - intros H; split; intros e I; apply H, in_app_iff; auto.
+    - intros [A B] e I; apply in_app_iff in I; destruct I; auto.
+  Qed.
+  Lemma all_access_nil : all_access [].
+  Proof. intros e []. Qed.
+  Lemma all_access_cons e es : is_access e = true -> all_access es -> all_access (e :: es).
+  Proof. intros A B x [<-|I]; auto. Qed.
+  Lemma then_access a b : all_access (snd a) -> all_access (snd b) -> all_access (snd (then_ a b)).
+  Proof. destruct a as [[e|] es]; cbn; [auto|]. intros A B. apply all_access_app; auto. Qed.
+
+  Ltac aa := repeat (apply all_access_cons; [reflexivity|]); try apply all_access_nil.
+
+  Lemma up_header_access t p : all_access (snd (up_header t p)).
+  Proof.
+    unfold up_header. destruct (find_file (t_files t) p) as [f|]; [|apply all_access_nil].
+    destruct (old_version_ok (f_ver f)); cbn [snd]; aa.
+  Qed.
+  Lemma up_headers_access t ps : all_access (snd (up_headers t ps)).
+  Proof.
+    induction ps as [|p ps IH]; cbn; [apply all_access_nil|].
+    pose proof (up_header_access t p) as H.
+    destruct (up_header t p) as [[e|] es]; cbn in *; [exact H|].
+    destruct (up_headers t ps) as [o es']. cbn in *. apply all_access_app; split; assumption.
+  Qed.
+  Lemma json_effects_access t k ty : all_access (json_effects t k ty).
+  Proof.
+    unfold json_effects. destruct (eqb k "descriptors"); [apply all_access_nil|].
+    destruct (memb (d_feat k ++ [json_name k]) (t_json t)); [unfold move_effects; aa | apply all_access_nil].
+  Qed.
+  Lemma files_effects_access t k ty : all_access (files_effects t k ty).
+  Proof.
+    intros e I. unfold files_effects in I. apply in_flat_map in I. destruct I as [rel [_ IE]].
+    destruct IE as [<-|[<-|[]]]; reflexivity.
+  Qed.
+  Lemma up_feature_access t k needs kp given : all_access (snd (snd (up_feature L true t k needs kp given))).
+  Proof.
+    unfold up_feature.
+    destruct (find_dir (t_dirs t) (d_feat k)) as [names|]; [|apply all_access_nil].
+    destruct (find_file (t_files t) (p_old_cfg k)) as [f|]; [|apply all_access_nil].
+    destruct (negb (old_version_ok (f_ver f))); [cbn [fst snd]; aa|].
+    destruct (needs && match kp with None => true | Some _ => false end); [cbn [fst snd]; aa|].
+    assert (EV : (match f_rows f with
+                  | r :: _ => if Nat.eqb (List.length r) 3 && is_int L (nth_s 2 r) && negb true then [Eval] else []
+                  | [] => [] end) = []).
+    { destruct (f_rows f); [reflexivity|]. rewrite andb_false_r. reflexivity. }
+    rewrite EV. cbn [app].
+    destruct (cfg_check L "keypoints" (p_old_cfg k) (f_rows f)); [cbn [fst snd]; aa|].
+    destruct (choose_type true (p_old_cfg k) given (nth_s 0 (hd [] (f_rows f)))) as [ty|er]; cbn [fst snd app]; [|aa].
+    apply all_access_cons; [reflexivity|]. apply all_access_cons; [reflexivity|]. apply all_access_cons; [reflexivity|].
+    apply all_access_app; split; [apply json_effects_access | apply files_effects_access].
+  Qed.
+  Lemma up_matches_access t kp : all_access (snd (up_matches t kp)).
+  Proof.
+    unfold up_matches. destruct (find_dir (t_dirs t) (d_feat "matches")); [|apply all_access_nil].
+    destruct kp as [ty|]; [|apply all_access_nil]. cbn [snd].
+    apply all_access_app; split; [apply json_effects_access | apply files_effects_access].
+  Qed.
+  Lemma up_obs_access t kp : all_access (snd (up_obs L t kp)).
+  Proof.
+    unfold up_obs. destruct (find_file (t_files t) p_obs) as [f|]; [|apply all_access_nil].
+    destruct (negb (old_version_ok (f_ver f))); [cbn [snd]; aa|].
+    destruct kp; [|cbn [snd]; aa].
+    destruct (forallb (obs10_row_ok L) (f_rows f)); cbn [snd]; aa.
+  Qed.
+
+  Lemma upgrade_all_access t kt dt gt : all_access (snd (upgrade_e L t kt dt gt)).
+  Proof.
+    unfold upgrade_e, upgrade_gen. cbn [snd].
+    pose proof (up_headers_access t csv_1_0) as H0.
+    destruct (up_headers t csv_1_0) as [[e0|] es0]; cbn [snd] in *; [exact H0|].
+    pose proof (up_feature_access t "keypoints" false kt kt) as I1.
+    destruct (up_feature L true t "keypoints" false kt kt) as [kp1 r1]. cbn [fst snd] in *.
+    set (kp := match kp1 with Some ty => Some ty | None => kt end).
+    pose proof (up_feature_access t "descriptors" true kp dt) as I2.
+    destruct (up_feature L true t "descriptors" true kp dt) as [x2 r2]. cbn [fst snd] in *.
+    pose proof (up_feature_access t "global_features" false kp gt) as I3.
+    destruct (up_feature L true t "global_features" false kp gt) as [x3 r3]. cbn [fst snd] in *.
+    apply (then_access (None, es0)); [exact H0|].
+    apply then_access; [exact I1|]. apply then_access; [exact I2|].
+    apply then_access; [apply up_matches_access|].
+    apply then_access; [exact I3|]. apply up_obs_access.
+  Qed.
+End UpgradeAccess.
